@@ -194,9 +194,12 @@ async fn step(w: &mut World, t: &mut Trace, s: &Value, src: &str, exp: Option<&V
         "SetFarthest" => w.f.set_farthest_on_full(Some(w.keys[uz(&s["k"]) - 1].clone())),
         "ExpireFetch" => {
             let e = &s["e"];
-            let ok = w.f.expire_on_going(&w.keys[uz(&e["k"]) - 1], &w.types[uz(&e["t"]) - 1]);
-            if !ok {
-                // the real fetcher does not have this fetch in flight (the model had): nothing to age
+            // age the fetch only if exactly this (holder, key, type) is in flight: the hook addresses fetches by
+            // (key, type), and after another admissible tie order the real fetcher may run that fetch from another
+            // holder, or not at all
+            let (key, ty, holder) = (w.keys[uz(&e["k"]) - 1].clone(), w.types[uz(&e["t"]) - 1].clone(), w.holders[uz(&e["h"]) - 1]);
+            if w.f.on_going_fetches().iter().any(|(k, t, h)| *k == key && *t == ty && *h == holder) {
+                let _ = w.f.expire_on_going(&key, &ty);
             }
         }
         "ExpirePending" => {
